@@ -410,6 +410,9 @@ func Returns(fn *ssa.Function) []*ssa.Return {
 	var out []*ssa.Return
 	Instrs(fn, func(i ssa.Instruction) {
 		if r, ok := i.(*ssa.Return); ok {
+			if fn.Recover != nil && r.Block() == fn.Recover {
+				return // synthetic block entered only after a recovered panic
+			}
 			out = append(out, r)
 		}
 	})
